@@ -257,7 +257,7 @@ func (r *HarnessResult) Summary() string {
 		st = append(st, fmt.Sprintf("%s=%d", k, v))
 	}
 	sort.Strings(st)
-	fmt.Fprintf(&sb, "%-40s paths=%d [%s] asserts ok=%d (trivial %d) queries: branch=%d assert=%d unknown=%d viol=%d solver=%.1fs wall=%.1fs",
-		r.Name, r.Paths, strings.Join(st, " "), r.AssertOK, r.AssertTriv, r.BranchQ, r.AssertQ, r.Unknown, len(r.Violations), r.SolverS, r.WallS)
+	fmt.Fprintf(&sb, "%-40s paths=%d steps=%d [%s] asserts ok=%d (trivial %d) queries: branch=%d assert=%d unknown=%d viol=%d solver=%.1fs wall=%.1fs",
+		r.Name, r.Paths, r.Steps, strings.Join(st, " "), r.AssertOK, r.AssertTriv, r.BranchQ, r.AssertQ, r.Unknown, len(r.Violations), r.SolverS, r.WallS)
 	return sb.String()
 }
